@@ -373,6 +373,19 @@ func depth2(thorough bool) []group {
 		}
 	}
 	gs = append(gs, group{"rest-lists-combined", extra})
+	// the same variable bound by both alternatives (it keeps the value of the alternative that matched)
+	sv := func() *Pat { return pVar("sv") }
+	l1 := func() *Pat { return pSeq(fList, -1, false, sv(), pLit(vi(1))) }
+	l2 := func() *Pat { return pSeq(fList, -1, false, pLit(vi(2)), sv()) }
+	same := []*Pat{
+		pOr(sv(), sv()), pOr(l1(), l2()), pOr(l2(), l1()), pOr(l1(), sv()), pOr(pLit(vi(1)), pOr(l1(), sv())),
+		pOr(pOr(l1(), l2()), sv()), pOr(pObj("Foo", "a", sv()), pSeq(fList, 1, false, sv())), pOr(pDict(fMap, true, vi(1), sv()), pSeq(fTuple, -1, false, sv(), pWild())),
+		pOr(pDict(fRec, true, vy("a"), sv()), pSeq(fList, -1, false, sv())), pOr(pAs(pLit(vi(1))).withName("sv"), l1()),
+		pSeq(fList, -1, false, pOr(l1(), l2()), pBind()), pAs(pOr(l1(), l2())), pOr(pAnd(pType("::Std::Int"), sv()), l1()),
+		pOr(l1(), pOr(pBind(), sv())), pOr(pSeq(fList, -1, false, sv(), pBind()), pSeq(fTuple, -1, false, pBind(), sv(), pWild())),
+		pObj("Foo", "b", pOr(l1(), l2())), pNilable(pOr(l1(), l2())),
+	}
+	gs = append(gs, group{"same-variable-alternatives", same})
 	return gs
 }
 
